@@ -95,7 +95,7 @@ def finalSig : List (Rsp SctBody) → Option DigitallySigned
       match r.body with
       | none => finalSig rest
       | some b => dsExact b.signature
-    else if Gen.postRetryStatuses.contains r.status then finalSig rest else none
+    else if retried r.status then finalSig rest else none
 
 def handle (line : String) : String :=
   match tokens line with
